@@ -93,6 +93,29 @@ def run(res, replay=None):
                 continue
             ng -= 1
             cases.append({"kind": "knn", "cubic": False, "family": "ringgap", "anchor": anchor, "width": width, "mcw": mcw, "k": rng.choice([1, 1, 2]), "pts": pts})
+        # near ties: neighbours of one particle at distances r (1 + j delta), delta down to 1e-10 (squared distances equal in single precision,
+        # distinct in double), in shuffled order and spread over several grid cells: the ranking must still be exact
+        for i in range(12 if tier == "quick" else 120):
+            w0 = rng.choice([1.0, 2.0, 0.37])
+            width = [w0, w0, w0] if i % 2 == 0 else [w0 * 1.3, w0, w0 * 0.8]
+            anchor = [rng.choice([0.0, 1.0, -2.5]) for _ in range(3)]
+            mcw = max(width) * rng.choice([0.2, 0.07, 0.5, 1.0])
+            P = [anchor[a] + width[a] * (0.4 + 0.2 * rng.unit()) for a in range(3)]
+            r = 0.1 * min(width) * (0.5 + rng.unit())
+            delta = rng.choice([1e-9, 1e-10, 3e-8, 1e-12])
+            dirs = [(1, 0, 0), (-1, 0, 0), (0, 1, 0), (0, -1, 0), (0, 0, 1), (0, 0, -1), (0.6, 0.8, 0), (0, -0.6, 0.8), (0.8, 0, -0.6)]
+            rng.shuffle(dirs)
+            m = rng.range(3, len(dirs))
+            ring = [[P[a] + r * (1 + j * delta) * d[a] for a in range(3)] for j, d in enumerate(dirs[:m])]
+            rng.shuffle(ring)
+            pts = [P] + ring
+            for _ in range(rng.range(0, 20)):
+                x = [anchor[a] + width[a] * rng.unit() * 0.999 for a in range(3)]
+                if math.sqrt(sum((x[a] - P[a]) ** 2 for a in range(3))) > 1.5 * r:
+                    pts.append(x)
+            if any(not (anchor[a] <= q[a] < anchor[a] + width[a]) for q in pts for a in range(3)):
+                continue
+            cases.append({"kind": "knn", "cubic": i % 2 == 0, "family": "neartie", "anchor": anchor, "width": width, "mcw": mcw, "k": rng.choice([1, 2, m - 1, m, min(m + 1, len(pts) - 1)]), "pts": pts})
         ns = 160 if tier == "quick" else 1600
         for i in range(ns):
             op = ["welzl", "epos6", "epos6s"][i % 3]
